@@ -46,6 +46,19 @@ def one(job):
     finally:
         shutil.rmtree(scratch, ignore_errors=True)
 
+skipf = os.environ.get("MUTANTS_SKIP_FILE")
+if skipf and os.path.exists(skipf):
+    done = set(l.strip() for l in open(skipf))
+    jobs = [j for j in jobs if (j[0] + "/" + os.path.basename(j[1])) not in done]
+# interleave properties: runs of one property are serialised by the per-property lock in core
+by = {}
+for j in jobs:
+    by.setdefault(j[0], []).append(j)
+jobs = []
+while any(by.values()):
+    for k in sorted(by):
+        if by[k]:
+            jobs.append(by[k].pop(0))
 with ThreadPoolExecutor(a.j) as ex:
     for key, res in ex.map(one, jobs):
         results[key] = res
